@@ -96,7 +96,14 @@ pub fn term(r: &mut Rng, cfg: &TermCfg, d: usize) -> Term {
     }
     let kids = |r: &mut Rng| -> Vec<Term> {
         let n = 1 + r.below(cfg.max_arity);
-        (0..n).map(|_| term(r, cfg, d - 1)).collect()
+        let mut ks: Vec<Term> = (0..n).map(|_| term(r, cfg, d - 1)).collect();
+        // a repeated component: unordered constructors drop it, ordered ones keep it
+        if r.chance(1, 6) {
+            let i = r.below(ks.len());
+            let dup = ks[i].clone();
+            ks.insert(i, dup);
+        }
+        ks
     };
     let k = r.below(23);
     let bin = |r: &mut Rng| (term(r, cfg, d - 1), term(r, cfg, d - 1));
@@ -564,7 +571,14 @@ pub fn lterm(r: &mut Rng, v: &LexVocab, d: usize, max_arity: usize) -> lx::Term 
     }
     let kids = |r: &mut Rng| -> Vec<lx::Term> {
         let n = 1 + r.below(max_arity);
-        (0..n).map(|_| lterm(r, v, d - 1, max_arity)).collect()
+        let mut ks: Vec<lx::Term> = (0..n).map(|_| lterm(r, v, d - 1, max_arity)).collect();
+        // equal components next to each other (the lexical model keeps them, sets included)
+        if r.chance(1, 5) {
+            let i = r.below(ks.len());
+            let dup = ks[i].clone();
+            ks.insert(i, dup);
+        }
+        ks
     };
     match r.below(3) {
         0 => lx::Term::new_compound(r.pick(&v.connecters).clone(), kids(r)),
